@@ -241,8 +241,8 @@ class Generator(ABC):
 
         def comment_filter(content: str):
             def neutralise(line: str) -> str:
-                # the text must not be able to end the comment
-                return line.replace('*/', '&#42;/')
+                # the text must not be able to end the comment, nor be read as a (possibly malformed) unicode escape by javac
+                return line.replace('*/', '&#42;/').replace('\\u', '&#92;u')
 
             output = ""
             if self.comment_start_string is not None:
